@@ -25,7 +25,7 @@ TRUSTED = ["pathlib / difflib are uninterpreted deterministic functions in the _
            "the `if has_diff_client or has_diff_core: raise` statement of generate() is exercised, not proved"]
 
 WORKER = os.path.join(os.path.dirname(os.path.abspath(__file__)), "c09_worker.py")
-SHAPES = ["schema-graph", "two-tags", "params-all-locations", "multi-2xx", "streams", "opid-collisions", "keyword-names", "free-text", "tag-spellings"]
+SHAPES = ["schema-graph", "two-tags", "undeclared-path-vars", "params-all-locations", "multi-2xx", "streams", "opid-collisions", "keyword-names", "free-text", "tag-spellings"]
 
 
 def _run_worker(arg):
@@ -235,6 +235,29 @@ def bounded_rerun(tier, seed):
             "distinct_nontrivial": n, "exhaustive": False, "failures": failures}
 
 
+def census_set_iteration(tier, seed):
+    """exact syntactic census (props/setorder.py) over the generator's whole source: every order-sensitive use of a set-typed expression is either absent
+    or listed in props/setorder_accepted.json with the reason why the visiting order cannot reach the output.  An unlisted site is a CANDIDATE for
+    hash-seed dependent output — reported as undecided, never as a violation (the two-run comparison below decides with a witness)."""
+    import json
+    from props import setorder
+    here = os.path.dirname(os.path.abspath(__file__))
+    accepted = json.load(open(os.path.join(here, "setorder_accepted.json")))
+    found = setorder.census("/repo/src/pyopenapi_gen")
+    out, n = [], 0
+    for key, sites in sorted(found.items()):
+        for kind, text in sites:
+            n += 1
+            if any(a[0] == kind and a[1] == text for a in accepted.get(key, [])):
+                continue
+            out.append({"id": f"census:set-iteration:{key}", "status": "undecided", "exhaustive": True,
+                        "detail": f"{key}: {kind}: `{text}` — the iteration order of a set is hash-seed dependent; not in props/setorder_accepted.json", "witness": {"site": key, "line": text}})
+    out.append({"id": "census:set-iteration", "status": "holds" if not out else "undecided", "exhaustive": True,
+                "detail": f"{n} order-sensitive uses of set-typed expressions in the generator source, {sum(len(v) for v in accepted.values())} accepted with a stated reason"})
+    return out
+
+
+EXTRA = [census_set_iteration]
 BOUNDED = [bounded_determinism, bounded_rerun]
 
 MANIFEST = {
